@@ -292,7 +292,7 @@ func TestVerifC23(t *testing.T) {
 	rec := kit.Start(t, "C23", "forget")
 	defer rec.Finish()
 	env := rec.Env
-	repos := env.Pick(100, 3400)
+	repos := env.Pick(100, 1200)
 	for ci := 0; ci < repos; ci++ {
 		if !env.Mine(ci) {
 			continue
